@@ -364,6 +364,25 @@ func (env *Env) checkStats() string {
 			return fmt.Sprintf("invocation %d (exit): Executions=%d, %d invocations had completed before it", k, inv.ExecutionsAtExit, completed(inv.SeqOut))
 		}
 		// last result seen by an attempt = outcome of the most recent completed attempt
+		if len(retryApps) == 1 && !hasHedge && inv.Returned {
+			// ... and still the same when the function returns, whatever happened to the attempt meanwhile
+			// (a cancellation does not rewrite what the attempt was given; with no previous error LastError
+			// may report the context's)
+			a := retryApps[0]
+			idx := -1
+			for j, c := range a.Children {
+				if c.In.Seq < inv.SeqIn {
+					idx = j
+				}
+			}
+			wantV, wantE := 0, error(nil)
+			if idx > 0 && a.Children[idx-1].Out != nil {
+				wantV, wantE = a.Children[idx-1].Out.Res.Result, a.Children[idx-1].Out.Res.Error
+			}
+			if idx >= 0 && (inv.LastVExit != wantV || (wantE != nil && inv.LastEExit != wantE) || (wantE == nil && inv.LastEExit != nil && !inv.CanceledAtEnd)) {
+				return fmt.Sprintf("invocation %d (attempt %d) saw last result (%d,%v) when it returned (cancelled meanwhile: %v), the previous attempt ended with (%d,%v)", k, idx, inv.LastVExit, inv.LastEExit, inv.CanceledAtEnd, wantV, wantE)
+			}
+		}
 		if len(retryApps) == 1 && !hasHedge && !inv.CanceledAtStart {
 			a := retryApps[0]
 			// which attempt of the retry layer is this invocation part of
